@@ -40,6 +40,12 @@ class Scratch:
         return False
 
 
+def begin_case():
+    """Reset interpreter-global harness state so a case is a pure function of (case, tape)."""
+    simmanager.install()
+    simmanager.reset()
+
+
 def new_sim(exec_tape, root=None, *, preempt=0.3, step_cap=20000, clock=False, fs_kwargs=None, log_events=False):
     sim = Sim(exec_tape, preempt=preempt, step_cap=step_cap, log_events=log_events)
     simmanager.install()
